@@ -89,6 +89,7 @@ class Replayer:
     def run(self, hist):
         """returns list of (step, expectation-free projection) and list of problems"""
         rng = np.random.default_rng(self.seed)
+        self.hid = getattr(self, "hid", 0) + 1
         obj, kind, cls, aux = None, None, None, None
         file = None
         ref_eval = None
@@ -109,6 +110,19 @@ class Replayer:
                     else:
                         obj, aux = make_model(c, rng, step + len(hist))
                         ref_eval = eval_model(obj, aux, self.seed)
+                elif name == "renew":
+                    # same kind and class, new parameters (the next dump overwrites the same path)
+                    c = getattr(td, cls)
+                    if kind == "list":
+                        obj, aux = make_list(c, rng)
+                        ref_eval = eval_list(obj, aux, self.seed)
+                    elif kind == "spline":
+                        obj = make_spline(rng)
+                        ref_eval = eval_spline(obj, self.seed)
+                    else:
+                        obj, aux = make_model(c, rng, step + len(hist) + 7)
+                        ref_eval = eval_model(obj, aux, self.seed)
+                    first_dump = {}
                 elif name == "dump":
                     fmt = op[1]
                     if fmt == "dict":
@@ -116,8 +130,7 @@ class Replayer:
                         file = ("dict", copy.deepcopy(d))
                         key = repr(sorted(d.items(), key=str)) if kind == "list" else None
                     else:
-                        self.n += 1
-                        p = os.path.join(self.tmp, "a%d.yaml" % self.n)
+                        p = os.path.join(self.tmp, "a_%d.yaml" % self.hid)     # ONE path per behaviour: later dumps overwrite it
                         obj.dump(p)
                         file = ("yaml", p)
                         key = open(p, "rb").read()
@@ -137,8 +150,7 @@ class Replayer:
                     obj = tcls.from_dict(copy.deepcopy(file[1])) if file[0] == "dict" else tcls.load(file[1])
                 elif name == "dumpmodel":
                     fmt, sfx = op[1], op[2]
-                    self.n += 1
-                    p = os.path.join(self.tmp, "m%d%s" % (self.n, sfx))
+                    p = os.path.join(self.tmp, "m_%d%s" % (self.hid, sfx))     # one path per (behaviour, suffix), overwritten
                     if fmt == "yaml":
                         with open(p, "w") as f:
                             yaml.dump(obj, f, Dumper=yaml.CDumper)
@@ -186,6 +198,8 @@ def spec_projection(hist, reg, writes):
     for op in hist:
         if op[0] == "make":
             obj = {"kind": op[1], "cls": op[2]}
+        elif op[0] == "renew":
+            pass
         elif op[0] == "dump":
             file = {"kind": obj["kind"], "fmt": op[1], "cls": obj["cls"],
                     "code": writes[obj["cls"]] if obj["kind"] == "list" else "spline"}
